@@ -346,6 +346,7 @@ struct C19 : Scenario {
 				m.gos9 = os9;
 			}
 			if (m.level >= 2 && rng.chance(1, 3)) { ExtHdr e; e.type = 0; e.data = {0, 0}; e.auto_crc = true; m.ext.push_back(e); }
+			if (m.level >= 1 && rng.chance(1, 6)) add_noise_ext(rng, m);
 			sum_orig += m.kind == 'f' ? orig : (m.orig > 0 ? (uint64_t) m.orig : 0);
 			sum_packed += packed;
 			p.members.push_back(m);
